@@ -584,6 +584,32 @@ theorem switch_only_when_all_sample_histories (n : Nat) (tol : Int) (offs : Nat 
       rw [h0] at h5 h6
       exact Or.inr (Or.inr (Or.inr ⟨eb, heb, eb', heb', h3, h4, rfl, h0, h5, h6⟩))
 
+/-! ### three readings of the statement, each with its witness (design_notes/C15.md, Interpretation) -/
+
+-- (1) the min clause is per health domain and data-UDP is never measured: a = 300, b = 200, c = 20
+-- measured on dns-udp4 (type 0) and tcp4 (type 2); a tcp4 request gets c, a data-udp4 request gets a
+-- (first joined, unmeasured, "latency" one hour).
+example :
+    let w := runW (worldNew 3 0 (fun _ => 0) .minLast 0 (fun _ _ => true) (fun _ _ => Coll.empty) (fun _ _ => 0))
+      [.sample 0 0 300, .sample 0 1 200, .sample 0 2 20, .sample 2 0 300, .sample 2 1 200, .sample 2 2 20]
+    (select (fun _ _ _ => 0) w.g ⟨false, false, false, .unset⟩ true none).toOption = some ⟨2, 20, 2⟩ ∧
+    (select (fun _ _ _ => 0) w.g ⟨true, false, false, .data⟩ true none).toOption = some ⟨0, hour, 4⟩ := by decide
+
+-- (2) the backoff penalty is part of the measurement: A measured 10 with penalty 1000, B measured 500,
+-- tolerance 0: B is the choice.
+example :
+    let w := runW (worldNew 2 0 (fun _ => 0) .minLast 0 (fun _ _ => true) (fun _ _ => Coll.empty) (fun _ _ => 0))
+      [.pen 2 0 1000, .sample 2 0 10, .sample 2 1 500]
+    (select (fun _ _ _ => 0) w.g ⟨false, false, false, .unset⟩ true none).toOption = some ⟨1, 500, 2⟩ := by decide
+
+-- (3) "no alive node" = no alive node other than the excluded one: node 1 dead, node 0 alive but
+-- excluded (both families) → the non-strict selection still reports nothing.
+example :
+    let w := runW (worldNew 2 0 (fun _ => 0) .minLast 0 (fun _ _ => true) (fun _ _ => Coll.empty) (fun _ _ => 0))
+      [.told 2 1 false, .told 3 1 false]
+    (select (fun _ _ _ => 0) w.g ⟨false, false, false, .unset⟩ false (some 0)).toOption = none ∧
+    (w.g.sets 2).isAlive 0 = true := by decide
+
 /-! ## F. reload hand-over
 
 `ControlPlane.InheritDialerHealthFrom` = for each group: `CaptureReloadSelectionFallback`
